@@ -1,5 +1,5 @@
 (* Properties/C16.v — Upload and choking discipline. *)
-From Storrent Require Import Base.Bytes Base.Bencode Model.Wire Model.PeerCore Proof.PeerCore.
+From Storrent Require Import Base.Bytes Base.Bencode Model.Wire Model.PeerCore Proof.PeerCore Proof.Sent.
 Open Scope N_scope.
 
 (* In every state reachable from a fresh peer by ANY history of remote messages,
@@ -34,3 +34,11 @@ Print Assumptions c16_piece_only_if.
 Theorem c16_step : forall s ballast o k, inv16 s -> inv16 (a_st (fst (step s ballast o k))).
 Proof. exact step_inv16. Qed.
 Print Assumptions c16_step.
+
+(* ... and no other handler ever writes a Piece: whatever the remote peer, the scheduler or the
+   timers make the peer core do, from ANY state, a Piece on the wire comes from the upload tick
+   (to which c16_piece_only_if applies). *)
+Theorem c16_piece_only_from_upload : forall s ballast o k i b d,
+  In (Piece i b d) (a_msgs (fst (step s ballast o k))) -> exists allow data, o = OpUpload allow data.
+Proof. exact piece_only_from_upload. Qed.
+Print Assumptions c16_piece_only_from_upload.
